@@ -269,6 +269,21 @@ def generate(tier, seed, ctx):
     R.append("c04.identity 0"); R.append("c04.diag 0"); R.append("c04.ctor 0"); R.append("c04.vnorm 0")
     for n in range(1, 9):
         R.append("c04.identity %d" % n)
+    # object histories: one object, a sequence of member calls on it
+    for _ in range(1500 if thorough else 300):
+        R.append(gen_vhist(rng, rng.randint(3, 14)))
+    for _ in range(1000 if thorough else 200):
+        R.append(gen_mhist(rng, rng.randint(3, 12)))
+    # the shortest stale-state histories as a fixed corpus
+    R.append("c04.vhist 2 0x1.8p+1 0x1p+2 3 N - 2 0x1.8p+1 0x0p+0 N")
+    R.append("c04.vhist 2 0x1.8p+1 0x1p+2 3 N + 2 0x1.8p+1 0x1p+2 N")
+    R.append("c04.vhist 2 0x1.8p+1 0x1p+2 4 N W 0 0x0p+0 N M")
+    R.append("c04.vhist 2 0x1.8p+1 0x1p+2 4 N Z 1 N D")
+    R.append("c04.vhist 2 0x1.8p+1 0x1p+2 4 N A 2 0x1p+0 N D")
+    R.append("c04.vhist 2 0x1.8p+1 0x1p+2 4 N = 2 0x1.8p+2 0x1p+3 N M")
+    R.append("c04.vhist 2 0x1.8p+1 0x1p+2 3 N C 2 0x1.8p+1 0x0p+0 N")
+    R.append("c04.vhist 2 0x1.8p+2 0x1p+3 4 N U N D")
+    R.append("c04.mhist 2 2 0x1p+0 0x1p+1 0x1.8p+1 0x1p+2 8 N T D - 2 2 0x1p+0 0x0p+0 0x0p+0 0x1p+0 N T D Y")
     ctx["spell"] = {}
     return R
 
@@ -333,6 +348,8 @@ def u32(i):
 
 def pyref(op, a):
     c = Cur(a)
+    if op in ("c04.vhist", "c04.mhist"):
+        return hist_ref(op, a)
     if op in ("c04.plus", "c04.minus"):
         sp = c.tok(); (r, k, A), (r2, k2, B) = c.mat(), c.mat()
         if (r, k) != (r2, k2):
@@ -484,6 +501,375 @@ def pyref(op, a):
     return None
 
 
+
+# --------------------------------------------------------------------------------------------------
+# object histories (one Vector / Matrix object, a sequence of member calls): exact simulation with a
+# running bound `err` on the absolute rounding error of the entries held by the C++ object
+# --------------------------------------------------------------------------------------------------
+
+def fsqrt(q):
+    """exact square root of a Fraction that is a perfect square, else None"""
+    if q < 0:
+        return None
+    n, d = q.numerator, q.denominator
+    sn, sd = math.isqrt(n), math.isqrt(d)
+    return Fraction(sn, sd) if sn * sn == n and sd * sd == d else None
+
+
+def sqrt_up(q):
+    """a rational upper bound of sqrt(q) (for tolerances only)"""
+    return Fraction(math.sqrt(float(q)) * (1 + 1e-12) + 1e-300) if q > 0 else Fraction(0)
+
+
+class VSim:
+    """state of a Vector history: entries (exact) and the error bound of the C++ object's entries"""
+    def __init__(self, v):
+        self.v = [Fraction(x) for x in v]; self.err = Fraction(0)
+
+    def mx(self):
+        return max([abs(x) for x in self.v], default=Fraction(0))
+
+    def normsq(self):
+        return sum((x * x for x in self.v), Z)
+
+    def norm_tol(self):
+        """(exact norm^2, bound on |Norm() - norm|)"""
+        n = len(self.v); S = self.normsq()
+        return S, sqrt_up(Fraction(n)) * self.err + (n + 3) * EPS * sqrt_up(S)
+
+    def step(self, op):
+        """op: tuple as generated; returns list of items ('int',v) | ('val',exact,tol) | ('sq',S,tolnorm) or 'err'/'undef'"""
+        k = op[0]; n = len(self.v)
+        if k == "N":
+            S, t = self.norm_tol(); return [("sq", S, t)]
+        if k == "D":
+            S = self.normsq()
+            return [("val", S, 2 * n * (self.mx() + self.err) * self.err + (n + 3) * EPS * S)]
+        if k == "S":
+            return [("int", n)]
+        if k in ("M", "U"):
+            S, tn = self.norm_tol(); r = fsqrt(S)
+            if r is None or r == 0:
+                return "undef"
+            w = [x / r for x in self.v]
+            e = self.err / r + self.mx() * tn / (r * r) * 2 + 2 * EPS * (self.mx() / r)
+            if k == "M":
+                return [("val", x, e) for x in w]
+            self.v = w; self.err = e; return []
+        if k == "R":
+            return "err" if op[1] >= n else [("val", self.v[op[1]], self.err)]
+        if k == "W":
+            if op[1] >= n:
+                return "err"
+            self.v[op[1]] = Fraction(op[2]); return []
+        if k in ("+", "-", "C"):
+            u = [Fraction(x) for x in op[1]]
+            if len(u) != n:
+                return "err"
+            sg = 1 if k == "+" else -1
+            w = [x + sg * y for x, y in zip(self.v, u)]
+            mw = max([abs(x) for x in w], default=Z)
+            e = self.err * (1 + 2 * EPS) + EPS * mw
+            if k == "C":
+                c = VSim([]); c.v = w; c.err = e
+                S1, t1 = c.norm_tol(); S0, t0 = self.norm_tol()
+                return [("sq", S1, t1), ("sq", S0, t0)]
+            self.v = w; self.err = e; return []
+        if k == "=":
+            self.v = [Fraction(x) for x in op[1]]; self.err = Fraction(0); return []
+        if k == "Z":
+            self.v = self.v[:op[1]] + [Z] * (op[1] - n); return []
+        if k == "A":
+            self.v = [Fraction(op[2])] * op[1]; self.err = Fraction(0); return []
+        raise ValueError(k)
+
+
+class MSim:
+    def __init__(self, rows, c):
+        self.a = [[Fraction(x) for x in r] for r in rows]; self.c = c; self.err = Fraction(0)
+
+    @property
+    def r(self):
+        return len(self.a)
+
+    def mx(self):
+        return max([abs(x) for row in self.a for x in row], default=Z)
+
+    def norm_tol(self):
+        n = self.r * self.c; S = sum((x * x for row in self.a for x in row), Z)
+        return S, sqrt_up(Fraction(max(n, 1))) * self.err + (n + 3) * EPS * sqrt_up(S)
+
+    def step(self, op):
+        k = op[0]; r, c = self.r, self.c
+        if k == "N":
+            S, t = self.norm_tol(); return [("sq", S, t)]
+        if k == "T":
+            if r != c:
+                return "err"
+            return [("val", sum((self.a[i][i] for i in range(r)), Z), r * self.err + (r + 3) * EPS * sum((abs(self.a[i][i]) for i in range(r)), Z))]
+        if k == "D":
+            if r != c:
+                return "err"
+            if r == 0:
+                return [("val", Z, 0)]
+            M = self.mx() + self.err
+            bound = math.factorial(r) * (r * M ** (r - 1) * self.err + (r * r + 4 * r) * 2 * EPS * M ** r)
+            return [("val", fdet_exact(self.a), bound)]
+        if k == "P":
+            rr, cc = (c, r) if c != 0 else (0, 0)
+            return [("int", rr), ("int", cc)] + [("val", self.a[j][i], self.err) for i in range(rr) for j in range(cc)]
+        if k == "Y":
+            sym = r == c and all(self.a[i][j] == self.a[j][i] for i in range(r) for j in range(r))
+            return [("bool", int(sym), self.err == 0)]
+        if k == "S":
+            return [("int", r), ("int", c)]
+        if k == "R":
+            if op[1] >= r:
+                return "err"
+            return "undef" if op[2] >= c else [("val", self.a[op[1]][op[2]], self.err)]
+        if k == "W":
+            if op[1] >= r:
+                return "err"
+            if op[2] >= c:
+                return "undef"
+            self.a[op[1]][op[2]] = Fraction(op[3]); return []
+        if k in ("+", "-", "C"):
+            B = op[1]
+            if len(B) != r or B.ncols != c:
+                return "err"
+            sg = 1 if k == "+" else -1
+            w = [[x + sg * Fraction(y) for x, y in zip(ra, rb)] for ra, rb in zip(self.a, B)]
+            mw = max([abs(x) for row in w for x in row], default=Z)
+            e = self.err * (1 + 2 * EPS) + EPS * mw
+            if k == "C":
+                cpy = MSim(w, c); cpy.err = e
+                S1, t1 = cpy.norm_tol(); S0, t0 = self.norm_tol()
+                return [("sq", S1, t1), ("sq", S0, t0)]
+            self.a = w; self.err = e; return []
+        if k == "=":
+            self.a = [[Fraction(x) for x in row] for row in op[1]]; self.c = op[1].ncols; self.err = Fraction(0); return []
+        if k == "Z":
+            nr, nc = op[1], op[2]
+            rows = self.a[:nr] + [[] for _ in range(nr - r)]
+            self.a = [row[:nc] + [Z] * (nc - len(row)) for row in rows]; self.c = nc; return []
+        if k == "A":
+            self.a = [[Fraction(op[3])] * op[2] for _ in range(op[1])]; self.c = op[2]; self.err = Fraction(0); return []
+        if k == "DR":
+            if op[1] >= r:
+                return "err"
+            del self.a[op[1]]; return []
+        if k == "DC":
+            if op[1] >= c:
+                return "err"
+            for row in self.a:
+                del row[op[1]]
+            self.c -= 1; return []
+        raise ValueError(k)
+
+
+def fdet_exact(a):
+    n = len(a)
+    A = [list(r) for r in a]; d = Fraction(1)
+    for i in range(n):
+        p = next((r for r in range(i, n) if A[r][i] != 0), None)
+        if p is None:
+            return Z
+        if p != i:
+            A[i], A[p] = A[p], A[i]; d = -d
+        d *= A[i][i]
+        for r in range(i + 1, n):
+            f = A[r][i] / A[i][i]
+            A[r] = [x - f * y for x, y in zip(A[r], A[i])]
+    return d
+
+
+PYTHAG = [[3.0, 4.0], [1.0, 2.0, 2.0], [2.0, 3.0, 6.0], [1.0, 4.0, 8.0], [1.0, 1.0, 1.0, 1.0], [2.0, 4.0, 5.0, 6.0], [0.0, 5.0],
+          [6.0, 8.0], [4.0, 4.0, 7.0], [1.0, 2.0, 2.0, 4.0, 0.0], [5.0]]
+
+
+def hval(rng):
+    return 0.0 if rng.random() < 0.1 else dyadic(rng, -8, 8, 3)
+
+
+def op_tok(op):
+    out = [op[0]]
+    for x in op[1:]:
+        if isinstance(x, Rows):
+            out.append(mat_tok(x))
+        elif isinstance(x, list):
+            out.append(lst(x))
+        elif isinstance(x, float):
+            out.append(hx(x))
+        else:
+            out.append(str(x))
+    return " ".join(out)
+
+
+def gen_vhist(rng, nops):
+    n = rng.randint(1, 6)
+    v0 = rng.choice(PYTHAG)[:] if rng.random() < 0.4 else [hval(rng) for _ in range(n)]
+    sim = VSim(v0); ops = []
+    while len(ops) < nops:
+        n = len(sim.v); c = rng.random()
+        if c < 0.30:
+            k = rng.choice(["N", "N", "D", "S", "R", "M"])
+            op = (k, rng.randrange(n)) if k == "R" and n else ((k,) if k != "R" else ("S",))
+        elif c < 0.62:
+            k = rng.choice(["+", "-", "-", "C"])
+            if rng.random() < 0.35 and n >= 1:      # move to a vector with a rational norm: subtract (v - target)
+                tgt = [float(x) for x in rng.choice(PYTHAG)]
+                tgt = (tgt + [0.0] * n)[:n]
+                cur = [float(x) for x in sim.v]
+                if all(Fraction(x) == y for x, y in zip(cur, sim.v)):
+                    u = [a - b for a, b in zip(cur, tgt)] if k != "+" else [b - a for a, b in zip(cur, tgt)]
+                    if all(Fraction(p) == (Fraction(a) - Fraction(b) if k != "+" else Fraction(b) - Fraction(a)) for p, a, b in zip(u, cur, tgt)):
+                        op = (k, u)
+                    else:
+                        op = (k, [hval(rng) for _ in range(n)])
+                else:
+                    op = (k, [hval(rng) for _ in range(n)])
+            else:
+                op = (k, [hval(rng) for _ in range(n)])
+        elif c < 0.72 and n:
+            op = ("W", rng.randrange(n), hval(rng))
+        elif c < 0.78:
+            op = ("Z", rng.randint(1, 6))
+        elif c < 0.84:
+            op = ("A", rng.randint(1, 6), hval(rng))
+        elif c < 0.92:
+            op = ("=", rng.choice(PYTHAG)[:] if rng.random() < 0.6 else [hval(rng) for _ in range(rng.randint(1, 6))])
+        else:
+            op = ("U",)
+        trial = VSim([]); trial.v = list(sim.v); trial.err = sim.err
+        res = trial.step(op)
+        if res in ("undef", "err"):
+            continue
+        if trial.err > Fraction(1, 2 ** 30) or (trial.v and max(abs(x) for x in trial.v) > 2 ** 20):
+            continue
+        sim = trial; ops.append(op)
+    return "c04.vhist %s %d %s" % (lst(v0), len(ops), " ".join(op_tok(o) for o in ops))
+
+
+def gen_mhist(rng, nops):
+    r, c = rng.randint(1, 4), rng.randint(1, 4)
+    if rng.random() < 0.5:
+        c = r
+    hm = lambda rr, cc: Rows([[hval(rng) for _ in range(cc)] for _ in range(rr)], cc)
+    A0 = hm(r, c)
+    sim = MSim(A0, c); ops = []
+    while len(ops) < nops:
+        r, c = sim.r, sim.c; q = rng.random()
+        if q < 0.35:
+            k = rng.choice(["N", "N", "T", "D", "P", "Y", "S", "R"])
+            if k in ("T", "D") and r != c:
+                k = "N"
+            op = (k, rng.randrange(r), rng.randrange(c)) if k == "R" else (k,)
+        elif q < 0.62:
+            op = (rng.choice(["+", "-", "-", "C"]), hm(r, c))
+        elif q < 0.72:
+            op = ("W", rng.randrange(r), rng.randrange(c), hval(rng))
+        elif q < 0.78:
+            nr = rng.randint(1, 4); op = ("Z", nr, nr if rng.random() < 0.5 else rng.randint(1, 4))
+        elif q < 0.83:
+            nr = rng.randint(1, 4); op = ("A", nr, nr if rng.random() < 0.5 else rng.randint(1, 4), hval(rng))
+        elif q < 0.90:
+            nr = rng.randint(1, 4); op = ("=", hm(nr, nr if rng.random() < 0.6 else rng.randint(1, 4)))
+        elif q < 0.95 and r >= 2:
+            op = ("DR", rng.randrange(r))
+        elif c >= 2:
+            op = ("DC", rng.randrange(c))
+        else:
+            continue
+        res = sim.step(op)
+        assert res not in ("undef", "err"), (op, res)
+        ops.append(op)
+    return "c04.mhist %s %d %s" % (mat_tok(A0), len(ops), " ".join(op_tok(o) for o in ops))
+
+
+def parse_hist(op, a):
+    """request tokens -> (simulator, list of ops)"""
+    c = Cur(a)
+    rawf = lambda: fl(c.tok())
+    def rvec():
+        n = c.int(); return [rawf() for _ in range(n)]
+    def rmat_():
+        r, k = c.int(), c.int(); return Rows([[rawf() for _ in range(k)] for _ in range(r)], k)
+    ops = []
+    if op == "c04.vhist":
+        sim = VSim(rvec())
+        for _ in range(c.int()):
+            k = c.tok()
+            if k in ("R", "Z"):
+                ops.append((k, c.int()))
+            elif k in ("W", "A"):
+                ops.append((k, c.int(), rawf()))
+            elif k in ("+", "-", "=", "C"):
+                ops.append((k, rvec()))
+            else:
+                ops.append((k,))
+    else:
+        A = rmat_(); sim = MSim(A, A.ncols)
+        for _ in range(c.int()):
+            k = c.tok()
+            if k in ("R", "Z"):
+                ops.append((k, c.int(), c.int()))
+            elif k in ("W", "A"):
+                ops.append((k, c.int(), c.int(), rawf()))
+            elif k in ("DR", "DC"):
+                ops.append((k, c.int()))
+            elif k in ("+", "-", "=", "C"):
+                ops.append((k, rmat_()))
+            else:
+                ops.append((k,))
+    return sim, ops
+
+
+def hist_ref(op, a):
+    """('ok', items, opnames) | ('err',) | ('undef',)"""
+    sim, ops = parse_hist(op, a)
+    items, names = [], []
+    for o in ops:
+        res = sim.step(o)
+        if res == "err":
+            return ERR
+        if res == "undef":
+            return UNDEF
+        items += res; names += [o[0]] * len(res)
+    return ("hist", items, names)
+
+
+OBS_NAME = {"N": "Norm", "D": "Dot/Determinant", "S": "Size/shape", "R": "operator[] read", "M": "Normalized", "T": "Trace",
+            "P": "Transpose", "Y": "Symmetric", "C": "Norm of a mutated copy / of the original"}
+
+
+def check_hist(ref, ti, slack=4):
+    """observer values of the implementation against the exact simulation"""
+    _, items, names = ref
+    if len(ti) != len(items):
+        return "number of reported values: %d instead of %d" % (len(ti), len(items))
+    for idx, (it, t, nm) in enumerate(zip(items, ti, names)):
+        what = OBS_NAME.get(nm, nm)
+        if it[0] == "int":
+            if "x" in t or not t.lstrip("-").isdigit() or int(t) != it[1]:
+                return "%s (value %d of the history) is %s, expected %d" % (what, idx, t, it[1])
+        elif it[0] == "bool":
+            if it[2] and t != str(it[1]):
+                return "%s (value %d of the history) is %s, expected %d" % (what, idx, t, it[1])
+        else:
+            v = fl(t)
+            if math.isnan(v) or math.isinf(v):
+                return "%s (value %d of the history) is %r" % (what, idx, v)
+            if it[0] == "sq":
+                S, tn = it[1], it[2] * slack
+                rt = sqrt_up(S)
+                if v < 0 or abs(Fraction(v) ** 2 - S) > 2 * rt * tn + tn * tn:
+                    return "%s (value %d of the history) is %r, the current entries give %r" % (what, idx, v, math.sqrt(float(S)))
+            else:
+                if abs(Fraction(v) - it[1]) > slack * it[2]:
+                    return "%s (value %d of the history) is %r, the current entries give %r" % (what, idx, v, float(it[1]))
+    return None
+
+
 LAW_NAMES = ["transpose(A*B) == transpose(B)*transpose(A)", "A*I == A", "I*A == A", "transpose(transpose(A)) == A"]
 
 INT_HEADER = {"c04.plus": 2, "c04.minus": 2, "c04.mul": 2, "c04.smul": 2, "c04.sdiv": 2, "c04.transpose": 2,
@@ -570,11 +956,17 @@ def compare(rq, impl, model, ctx):
     if tm_ in ("ok", "err"):
         ctx["nontrivial"].add((op, a[0] if op in SPELLED else "", shape_key(op, a), tm_))
         bump(ctx, "outcome:" + tm_)
+    if ref[0] == "hist":
+        ctx["nontrivial"].add((op, tuple(sorted(set(ref[2]))), len(ref[1]) // 4))
     if (ref[0] == "err") != (tm_ == "err") or (ref[0] == "undef") != (tm_ == "undef"):
         out.append(fail("corr", clause_of(op, a) + ": model outcome %s, definition says %s" % (tm_, ref[0]), ""))
     elif tm_ == "ok":
         tm = toks(model)
-        if ref[0] == "sq":
+        if ref[0] == "hist":
+            want = [Fraction(it[1]) for it in ref[1]]
+            if [fr(t) for t in tm] != want:
+                out.append(fail("corr", clause_of(op, a) + ": model history differs from the exact simulation", ""))
+        elif ref[0] == "sq":
             if fr(tm[0]) != ref[1]:
                 out.append(fail("corr", clause_of(op, a) + ": model differs from the definition", ""))
         else:
@@ -609,6 +1001,9 @@ def oracle(op, a, impl, ref):
     if ti_ != "ok":
         return None
     ti = toks(impl)
+    if ref[0] == "hist":
+        d = check_hist(ref, ti)
+        return ("observer after a mutator does not agree with its definition (stale state)", d) if d else None
     if ref[0] == "sq":
         d = check_sq(ref, ti)
         return ("Norm is not the root of the sum of squares", d) if d else None
